@@ -365,6 +365,11 @@ func c10GenLoop(t *rapid.T) c10Scenario {
 		o.To = o.From + rapid.IntRange(1, 15).Draw(t, "outagelen")
 		s.Outage = o
 	}
+	if pct > 0 {
+		s.NthFail = rapid.SliceOfN(rapid.Custom(func(t *rapid.T) c10Nth {
+			return c10Nth{Kind: rapid.SampledFrom([]string{"Delete", "Delete", "Detach"}).Draw(t, "nthkind"), N: rapid.IntRange(1, 10).Draw(t, "nth")}
+		}), 0, 3).Draw(t, "nthfail")
+	}
 	for _, r := range raw {
 		kinds := c10KindsByState[state[r.P]]
 		op := c10Op{P: r.P, K: kinds[r.KI%len(kinds)]}
